@@ -90,6 +90,8 @@ def _profile_functions(fn):
 
 def run_partition(args):
   hname, params, tier, active, index = args
+  import logging
+  logging.disable(logging.CRITICAL)
   load_all()
   h = _REGISTRY[hname]
   t0 = time.time()
